@@ -3,6 +3,8 @@ from props_common import BASE_TB
 PROP = {
     "modules": ["YorkieModel.Props.C11"],
     "engines": [
+        # integrated engine: real client SDK + real in-process server (memory DB), traffic captured at the HTTP transport
+        {"name": "srv", "args": ["orc=c11"], "quick": {"n": 320, "workers": 8}, "thorough": {"n": 8000, "workers": 14}},
         {"name": "proto", "args": ["mix=lifecycle+malformed+schedules", "orc=c11"],
          "quick": {"n": 1600, "workers": 8, "args": ["shards=8", "len=5"]},
          "thorough": {"n": 60000, "workers": 14, "args": ["shards=14", "len=6"]}},
